@@ -110,7 +110,7 @@ PROPS = {
         "kind": "c03",
         "module": "Props.C03",
         "namespace": "Jl.C03",
-        "extra_theorem_files": [("Proofs.Order", "Jl.Order")],
+        "extra_theorem_files": [("Proofs.Order", "Jl.Order"), ("Proofs.LineKeys", "Jl.LineLevel")],
         "rule": ("templates with 0-6 columns in non-alphabetical order (names incl. '', 'é', 'a.b'), hidden anywhere, sub-rows to depth 3; "
                  "input and output template share names and structure as jl builds them; inputs: every permutation of the declared keys "
                  "(<= 4 keys; thorough 5), missing keys, extra keys, objects/arrays with >= 2 members in non-alphabetical order under "
@@ -126,7 +126,7 @@ PROPS = {
         "kind": "c04",
         "module": "Props.C04",
         "namespace": "Jl.C04",
-        "extra_theorem_files": [("Proofs.TimeShape", "Jl.TimeShape")],
+        "extra_theorem_files": [("Proofs.TimeShape", "Jl.TimeShape"), ("Proofs.LineLevel", "Jl.LineLevel")],
         "rule": ("9 output formats x (18 raw types + none) x 9 x 19 input descriptors (sampled) x ~85 JSON values (null, booleans, numbers "
                  "of every spelling and magnitude incl. 1e400, 30 digits, timestamps around years 0, 1970, 9999, 10000, +-2^63; strings "
                  "incl. numeric / boolean / base64 / date / date-time look-alikes and near-misses; arrays; objects), at top level and inside a "
